@@ -131,8 +131,8 @@ func outcomeOf(p *Proc, inst *Instance) appOutcome {
 	case EndPanicked:
 		o["end"] = "panicked"
 		who := ""
-		for ev, v := range p.Raised {
-			if sameValue(v, p.PanicVal) {
+		for _, ev := range p.Observed() { // in event order, so that the label never depends on map iteration
+			if v, ok := p.Raised[ev]; ok && sameValue(v, p.PanicVal) {
 				who = ev
 			}
 		}
